@@ -140,6 +140,24 @@ def observe_case(mod, d, c, how="ctor"):
                     e[label] = bool(fn())
                 except Exception as ex:
                     e["errors"].append("%s raised %s" % (label, type(ex).__name__))
+            # a pattern of the class (every slot holds Any, the pseudo-fields' slots too) compares equal to any packet
+            # of the class: all value-bearing fields compare equal
+            has_desc0 = any(f.get("desc", {}).get("kind", "none") != "none" for f in d["prog"][d["root"]]["fields"])
+            pat = None
+            if not has_desc0:
+                try:
+                    from bisturi.pattern_matching import anything_like
+                    pat = anything_like(cls)        # (cannot be built for every class, e.g. one with an Em field: not C20's matter)
+                except Exception:
+                    pat = None
+            if pat is not None:
+                try:
+                    # (the packet on the left: a nested packet answers False to anything that is not of its class, so
+                    # only totality and != being the negation are required in that direction)
+                    e["any_eq"] = bool(pat == obj) and not bool(pat != obj) and (bool(obj == pat) != bool(obj != pat)) \
+                        and isinstance(repr(pat), str)
+                except Exception as ex:
+                    e["errors"].append("comparison with a pattern raised %s" % type(ex).__name__)
             # two packets parsed from the same bytes; a parsed packet against the constructed one
             if po["st"] == "done":
                 try:
@@ -214,6 +232,8 @@ def compare(obs, c):
                 mm.append("C20_ChangeMakesUnequal")     # changing one field of q must make it unequal to p (and only that)
             if not e.get("eq_self") or e.get("eq_none") or not e.get("ne_none") or e.get("eq_other"):
                 mm.append("C20_Structural")
+            if e.get("any_eq") is False:
+                mm.append("C20_Pattern")
             if "parsed_eq" in e and not e["parsed_eq"]:
                 mm.append("C20_ParsedEqual")
             if "parsed_vs_built" in e and e["parsed_vs_built"] != (e["parsed_vals"] == e["cv1"]):
